@@ -558,4 +558,90 @@ theorem mpz_get_d_2exp_spec (z : Z) (hz : z.wf) (hnz : z.size ≠ 0) (hsz : z.d.
 
 example : mpz_get_d_2exp ⟨1, [5]⟩ = (0x3FE4000000000000, 3) ∧ mpz_get_d_2exp ⟨-2, [1, 2 ^ 63]⟩ = (0xBFE0000000000000, 128) := by decide
 
+/-! ## 5. Doubles to integers: __gmp_extract_double and mpz_set_d -/
+
+/-- `dblNum b` is the exact value of the finite double b scaled by 2^1074:
+    if `decode b = fin neg m q` then dblNum b = m · 2^(q + 1074). -/
+theorem dblNum_decode (b : Nat) (hf : expOf b ≠ 2047) :
+    ∃ neg m q, decode b = .fin neg m q ∧ 0 ≤ q + 1074 ∧ dblNum b = m * 2 ^ (q + 1074).toNat := by
+  unfold decode dblNum
+  rw [if_neg hf]
+  by_cases e0 : expOf b = 0
+  · rw [if_pos e0, if_pos e0]; exact ⟨_, _, _, rfl, by decide, by simp⟩
+  · rw [if_neg e0, if_neg e0]
+    refine ⟨_, _, _, rfl, by omega, ?_⟩
+    congr 2; omega
+
+example : decode 0x3FF8000000000000 = .fin false (3 * 2 ^ 51) (-52) ∧ dblNum 0x0020000000000001 = (2 ^ 52 + 1) * 2 ∧ dblNum 5 = 5 := by decide
+
+/-- extract_double_spec.  For every finite non-zero double d (normal or denormal; the sign bit is ignored),
+    `__gmp_extract_double` returns two proper limbs with a non-zero high limb and an exponent `ex` such that
+    {rp,2}·B^(ex-2) = |d| exactly; stated without negative powers via d·2^1074:
+    (rp[1]·B + rp[0])·2^(64·ex + 1074) = (|d|·2^1074)·2^128.  ex ≥ 1 iff |d| ≥ 1 (the callers' ASSERT). -/
+theorem extract_double_spec (b : Nat) (hz : isZero b = false) (hf : expOf b ≠ 2047) :
+    ∃ r0 r1 ex, extract_double b = (r0, r1, ex) ∧ r0 < B ∧ 1 ≤ r1 ∧ r1 < B ∧ -16 ≤ ex ∧ ex ≤ 16 ∧
+      (r1 * B + r0) * 2 ^ (64 * ex + 1074).toNat = dblNum b * 2 ^ 128 ∧ (1023 ≤ expOf b → 1 ≤ ex) ∧ (expOf b < 1023 → ex ≤ 0) :=
+  extract_double_eq b hz hf
+
+-- non-vacuity: 1.5 (one integer limb, fraction in the low limb), the smallest denormal, 2^64, the largest finite double
+example : extract_double 0x3FF8000000000000 = (2 ^ 63, 1, 1) ∧ extract_double 1 = (0, 2 ^ 14, -16) ∧
+    extract_double 0x43F0000000000000 = (0, 1, 2) ∧ extract_double 0x7FEFFFFFFFFFFFFF = (0, 2 ^ 64 - 2 ^ 11, 16) := by decide
+
+/-- set_d_spec.  mpz_set_d raises the invalid-operation exception exactly for NaN and ±∞; for every finite
+    double (zeros, denormals, normals) the result is a well-formed mpz whose value is the double's exact value
+    truncated toward zero: sign · floor (|d|), with |d| = dblNum / 2^1074. -/
+theorem set_d_spec (b : Nat) :
+    (expOf b = 2047 → mpz_set_d b = none) ∧
+    (expOf b ≠ 2047 → ∃ z, mpz_set_d b = some z ∧ z.wf ∧
+      z.toInt = (if sigOf b = 1 then -1 else 1) * ((dblNum b / 2 ^ 1074 : Nat) : Int)) := by
+  constructor
+  · intro h
+    unfold mpz_set_d isNaN isInf
+    by_cases m : manOf b = 0 <;> simp [h, m]
+  · intro hf
+    obtain ⟨a1, a2, a3, a4, _⟩ := absBits_fields b
+    have hni : (isNaN b || isInf b) = false := by unfold isNaN isInf; simp [hf]
+    unfold mpz_set_d
+    rw [hni]
+    simp only [Bool.false_eq_true, if_false]
+    by_cases hz : isZero b = true
+    · have : extract_double (absBits b) = (0, 0, 0) := by unfold extract_double; rw [a3, hz]; rfl
+      rw [this]
+      dsimp only
+      simp only [le_refl, if_true, neg_zero, ite_self]
+      refine ⟨_, rfl, ⟨rfl, Limbs_nil, fun h => absurd rfl h⟩, ?_⟩
+      rw [dblNum_zero hz]; simp [Z.toInt]
+    · have hz' : isZero b = false := by simpa using hz
+      have hneg : isNeg b = decide (sigOf b = 1) := by unfold isNeg; rw [hz']; simp
+      obtain ⟨r0, r1, ex, he, h0, h1, h1', x1, x2, hrel, _, _⟩ := extract_double_eq (absBits b) (by rw [a3]; exact hz') (by rw [a1]; exact hf)
+      rw [a4] at hrel
+      obtain ⟨q0, q1, q2⟩ := set_d_quot r0 r1 ex (dblNum b) h0 h1' hrel
+      obtain ⟨s0, s1, s2⟩ := set_d_shapes r0 r1 h0 h1 h1' (isNeg b)
+      rw [he]
+      dsimp only
+      have sgn_eq : (if isNeg b = true then (-1 : Int) else 1) = (if sigOf b = 1 then -1 else 1) := by
+        rw [hneg]; by_cases c : sigOf b = 1 <;> simp [c]
+      generalize hrn : (if ex ≤ 0 then (0 : Int) else ex) = rn
+      by_cases c0 : ex ≤ 0
+      · rw [if_pos c0] at hrn; subst hrn
+        simp only [if_true, neg_zero, ite_self]
+        exact ⟨_, rfl, s0.1, by rw [q0 c0, s0.2]; simp⟩
+      · rw [if_neg c0] at hrn; subst hrn
+        by_cases c1 : ex = 1
+        · subst c1
+          rw [if_neg (show ¬ (1 : Int) = 0 by decide), if_pos (show (1 : Int) = 1 from rfl)]
+          refine ⟨_, rfl, s1.1, ?_⟩
+          rw [s1.2, q1 rfl, sgn_eq]
+        · obtain ⟨k, hk⟩ : ∃ k : Nat, ex = ((k + 2 : Nat) : Int) := ⟨ex.toNat - 2, by omega⟩
+          subst hk
+          have t : ((k + 2 : Nat) : Int).toNat - 2 = k := by omega
+          rw [if_neg (show ¬ ((k + 2 : Nat) : Int) = 0 by omega), if_neg (show ¬ ((k + 2 : Nat) : Int) = 1 by omega), t]
+          refine ⟨_, rfl, (s2 k).1, ?_⟩
+          rw [(s2 k).2, q2 (by omega), t, sgn_eq]
+
+-- non-vacuity: -1.5 ↦ -1; 2^64 ↦ a two-limb value; the largest denormal ↦ 0; NaN and -∞ raise
+example : mpz_set_d 0xBFF8000000000000 = some ⟨-1, [1]⟩ ∧ mpz_set_d 0x43F0000000000000 = some ⟨2, [0, 1]⟩ ∧
+    mpz_set_d 0x000FFFFFFFFFFFFF = some ⟨0, []⟩ ∧ mpz_set_d 0x7FF8000000000000 = none ∧ mpz_set_d 0xFFF0000000000000 = none ∧
+    mpz_set_d 0x4340000000000001 = some ⟨1, [2 ^ 53 + 2]⟩ := by decide
+
 end Mpir.Conv
